@@ -4,6 +4,7 @@ package harness
 // through rapid, so cases shrink and replay.
 
 import (
+	"reflect"
 	"strings"
 
 	"pgregory.net/rapid"
@@ -206,7 +207,11 @@ func GenRule(t *rapid.T, kind string, o GenOpt) RS {
 		f["Target"] = pick(t, "target", o.V.Paths)
 	case "capability":
 		genQualifier(t, f, o)
-		setList(f, "Names", subsetOrdered(t, "names", poolN(o, reqCaps, 5), 1, 3))
+		nmin := 1
+		if chance(t, "allcaps", 6) {
+			nmin = 0 // 'capability,': every capability
+		}
+		setList(f, "Names", subsetOrdered(t, "names", poolN(o, reqCaps, 5), nmin, 3))
 	case "network":
 		genQualifier(t, f, o)
 		f["Domain"] = pick(t, "domain", poolN(o, reqNetDomains, 4))
@@ -215,6 +220,9 @@ func GenRule(t *rapid.T, kind string, o GenOpt) RS {
 			f["Type"] = pick(t, "type", poolN(o, reqNetType, 3))
 		case 2:
 			f["Protocol"] = pick(t, "proto", reqNetProto)
+			if chance(t, "protoonly", 4) {
+				delete(f, "Domain") // 'network tcp,'
+			}
 		}
 	case "mount":
 		genQualifier(t, f, o)
@@ -292,6 +300,10 @@ func GenRule(t *rapid.T, kind string, o GenOpt) RS {
 		f["Op"] = "<="
 		f["Value"] = pick(t, "value", []string{"0", "1024", "infinity", "5", "900", "1000", "1M", "100", "0100", "9", "10", "1K", "2G"})
 	case "all":
+		// the rule has no fields of its own today; should it ever carry a qualifier, generate it
+		if _, has := reflect.TypeOf(ruleFactory["all"]()).Elem().FieldByName("Audit"); has {
+			genQualifier(t, f, o)
+		}
 	default:
 		panic("GenRule: unknown kind " + kind)
 	}
